@@ -524,7 +524,7 @@ def merge_common(ctx):
                 rch = Reach(facts, body, Evaluator(facts, bool_atom=has_atom, assumption={'ours_has': True}))
                 byp = not lctx[0].must(rch, [bb])
                 foreign = []
-                for (b2, si), w in it.writes.items():
+                for (b2, si), w in list(it.writes.items()) + [(k_, w_) for k_, w_ in it.muts.items() if w_.kind == 'replace']:
                     tgt = loc_target(it, w.loc)
                     if b2 in lctx[0].blocks and tgt and tgt[0] == 1 and tgt[1] == (r['entries'],) and tgt[2] == 'ew' and tuple(tgt[3]) == tuple(sub) \
                             and drop_lv(w.val) != common_term:
@@ -547,11 +547,11 @@ def merge_common(ctx):
                 k = elem_of(c2.args[1].val)
                 if pp and pp[0] == 1 and pp[1] == (r['entries'],) and k and param_path(k[0]) and param_path(k[0])[0] == 2:
                     rem.append(b2)
-        for (b2, si), w in it.writes.items():
+        for (b2, si), w in list(it.writes.items()) + [(k_, w_) for k_, w_ in it.muts.items() if w_.kind == 'replace']:
             tgt = loc_target(it, w.loc)
             if tgt and tgt[0] == 1 and tgt[1] == (r['entries'],) and tgt[2] == 'ew' and tuple(tgt[3]) == tuple(sub):
                 if drop_lv(w.val) == common_term:
-                    asg.append(b2)
+                    asg.append(b2)   # `entry.clock = common` or `mem::replace(&mut entry.clock, common)`
         res = {}
         for val in (True, False):
             rc = Reach(facts, body, Evaluator(facts, bool_atom=atom, assumption={'empty': val}))
